@@ -332,7 +332,8 @@ BuildHost(m, b, dom) == IF m.hm THEN dom ELSE IF dom = <<>> THEN b.server ELSE d
 RootNoSlash(b) == LET r == Root(b.script) IN Take(r, Len(r) - 1)
 IsWsScheme(s) == s \in {<<119, 115>>, <<119, 115, 115>>}
 Secure(s) == s \in {<<104, 116, 116, 112, 115>>, <<119, 115, 115>>}
-\* x = [ep, vals, ext, url, ok]  ->  verdict clause; DriftBuild = what the documentation leaves open
+\* x = [ep, vals, ext, scheme (build(url_scheme=...), <<>> for none), url, ok]  ->  verdict clause; BuildDrift = what the
+\* documentation leaves open
 JudgeBuild(rules, m, b, x) ==
   LET R == {i \in 1..Len(rules) : rules[i].endpoint = x.ep} IN
   IF Cardinality(R) # 1 THEN "ok"
@@ -346,7 +347,10 @@ JudgeBuild(rules, m, b, x) ==
           ELSE IF r.ws THEN
                (IF u.ok /\ IsWsScheme(u.scheme) /\ u.host = host /\ u.path = path THEN "ok" ELSE "BuildWebsocketExternal")
           ELSE IF x.ext \/ ~samehost THEN
-               (IF u.ok /\ u.host = host /\ u.path = path THEN "ok" ELSE IF r.bo THEN "BuildOnlyBuilds" ELSE "BuildExternal")
+               (IF ~(u.ok /\ u.host = host /\ u.path = path) THEN (IF r.bo THEN "BuildOnlyBuilds" ELSE "BuildExternal")
+                \* build docstring: ":param url_scheme: Scheme to use in place of the bound url_scheme."
+                ELSE IF ~IsWsScheme(b.scheme) /\ b.scheme # <<>> /\ u.scheme # (IF x.scheme = <<>> THEN b.scheme ELSE x.scheme) THEN "BuildScheme"
+                ELSE "ok")
           ELSE (IF x.url = path THEN "ok" ELSE IF r.bo THEN "BuildOnlyBuilds" ELSE "BuildRelative")
 \* not documented (code comment only): wss iff the bound / given scheme is secure; an HTTP rule built from a
 \* WebSocket bind gets http / https
@@ -355,7 +359,7 @@ BuildDrift(rules, m, b, x) ==
   IF Cardinality(R) # 1 \/ ~x.ok THEN "ok"
   ELSE LET r == rules[CHOOSE i \in R : TRUE]
            u == SplitUrl(x.url)
-           sec == Secure(b.scheme)
+           sec == Secure(IF x.scheme = <<>> THEN b.scheme ELSE x.scheme)
        IN IF ~u.ok THEN "ok"
           ELSE IF r.ws THEN (IF u.scheme = (IF sec THEN <<119, 115, 115>> ELSE <<119, 115>>) THEN "ok" ELSE "WsSchemeSecurity")
           ELSE IF u.scheme = (IF sec THEN <<104, 116, 116, 112, 115>> ELSE <<104, 116, 116, 112>>) THEN "ok" ELSE "HttpSchemeFromWsBind"
